@@ -952,3 +952,6 @@ def json_short(x):
     import json
     from harness.common import jsonable
     return json.dumps(jsonable(x))[:600]
+
+
+DRIVER_OPS = ["names"]   # per-area driver executable(s) this check talks to (built before any worker is forked)
